@@ -1,2 +1,3 @@
 pub mod wacsyn;
 pub mod wit;
+pub mod ghist;
